@@ -48,6 +48,11 @@ def conn(seed, tier):
         add("blocked", senders=3, persender=2, delay_ms=0, blockwrite=k, feed=1, rclose=True, sizes=[0, 40])
         add("blocked", senders=2, persender=2, delay_ms=2, blockwrite=k, failread=2, feed=2, syncmod=2)
         add("blocked", senders=2, persender=2, delay_ms=0, blockwrite=k, timeout_ms=5, feed=0)
+    # 6b. duplex: large packets (handed to the carrier without copying) written slowly while the connection receives packets at the
+    #     same time - buffers shared between the sending and the receiving side must not be reused too early
+    for k in range(6 if tier == "quick" else 24):
+        add("duplex", senders=rng.choice([1, 2, 3]), persender=rng.choice([2, 3]), delay_ms=rng.choice([0, 1]), sizes=rng.choice([[9000, 5000], [5000], [9000, 0, 6000]]),
+            syncmod=rng.choice([0, 1, 2]), feed=1, feedloop=rng.choice([8, 14]), wdelay_us=rng.choice([300, 600, 1000]), rclose=rng.random() < 0.5)
     # 7. the same over a real TCP connection on loopback (logged net.Conn under transport.NetConn): concurrency, close at arbitrary
     #    moments, peer end-of-stream, injected failures, read timeout
     for k in range(12 if tier == "quick" else 60):
